@@ -127,7 +127,7 @@ FIXTURES = {
         [("cmos", {"cutoff_wavelength": 2.5, "spatial_noise_factor": 0.1, "temporal_noise": True})],
     "pyxel.models.charge_generation.dark_current_saphira.dark_current_saphira": [("apd", {"@temperature": 80.0})],
     "pyxel.models.charge_generation.dark_current_induced.radiation_induced_dark_current":
-        [("ccd", {"depletion_volume": 64.0, "annealing_time": 0.1, "displacement_dose": 50.0, "shot_noise": True})],
+        [("ccd", {"depletion_volume": 64.0, "annealing_time": 0.1, "displacement_dose": 5000.0, "shot_noise": True})],
     "pyxel.models.charge_generation.charge_deposition.charge_deposition":
         [("ccd", {"flux": 1000.0, "step_size": 1.0, "energy_mean": 1.0, "energy_spread": 0.1,
                   "stopping_power_curve": "@data/protons-in-silicon_stopping-power.csv"})],
@@ -198,7 +198,8 @@ def census_job(job) -> dict:
                   os.path.join(datadir, v[6:]) if isinstance(v, str) and v.startswith("@data/") else v)
               for a, v in kwargs.items() if not a.startswith("@")}
     events = []
-    key = f"{name}|{sorted(kwargs.items())!r}|seed={seed}|{shape}"
+    outer = job.get("outer")         # the function has no seed of its own and runs under a pipeline seed
+    key = f"{name}|{sorted(kwargs.items())!r}|seed={seed}|outer={outer}|{shape}"
     _ORIG["seed"](1000 + k)
     outside(events, k)
     err = ""
@@ -212,7 +213,12 @@ def census_job(job) -> dict:
             raised = False
             with Watch(events, fail_at if rep == 1 else None):
                 try:
-                    fn(det, seed=seed, **kwargs)
+                    if outer is not None:
+                        from pyxel.util import set_random_seed
+                        with set_random_seed(outer):
+                            fn(det, seed=None, **kwargs)
+                    else:
+                        fn(det, seed=seed, **kwargs)
                 except Injected:
                     raised = True
                 except Exception as e:
